@@ -127,6 +127,29 @@ c_algcheck(void)
         fputs("N", stdout);
         return;
     }
+    if (strcmp(e, "deccekU") == 0 || strcmp(e, "deccekPU") == 0) {
+        /* the header names <henc> in the shared UNPROTECTED header only (not authenticated): the object is
+         * produced with the algorithm the key declares (or henc), then its unprotected enc is set to <henc> */
+        const char *henc = F[2], *kalg = F[3];
+        const char *real = strcmp(kalg, "-") == 0 ? henc : kalg;
+        for (int i = 0; i < 5; i++) {
+            json_auto_t *jwe = strcmp(e, "deccekPU") == 0
+                ? json_pack("{s:{s:s},s:{s:s}}", "protected", "typ", "x", "unprotected", "enc", real)
+                : json_pack("{s:{s:s}}", "unprotected", "enc", real);
+            json_auto_t *cek = json_deep_copy(keys[i]);
+            if (!jose_jwe_enc_cek(NULL, jwe, cek, "x", 1))
+                continue;
+            json_object_set_new(json_object_get(jwe, "unprotected"), "enc", json_string(henc));
+            json_auto_t *k = with_alg(keys[i], kalg);
+            size_t l = 0;
+            void *pt = jose_jwe_dec_cek(NULL, jwe, k, &l);
+            fputs(pt ? "A" : "R", stdout);
+            free(pt);
+            return;
+        }
+        fputs("N", stdout);
+        return;
+    }
     if (strcmp(e, "exc") == 0) {
         json_auto_t *a = with_alg(keys[6], F[2]);
         json_t *pubk = json_deep_copy(keys[6]);
